@@ -62,5 +62,6 @@ static inline char *hxstr(const char *s) {
 typedef int (*opfn)(const char *op, int argc, char **argv, FILE *out);
 int h_rsp_op(const char *op, int argc, char **argv, FILE *out);
 int h_tls_op(const char *op, int argc, char **argv, FILE *out);
+int h_hostport_op(const char *op, int argc, char **argv, FILE *out);
 int h_misc_op(const char *op, int argc, char **argv, FILE *out);
 #endif
